@@ -21,7 +21,7 @@ from sfv.framework import Ctx, Property
 from sfv.rt import stepdrive as sd
 from sfv.rt.loop_safe import run_controlled
 from sfv.rt.sfctx import make_context
-from sfv.translate import loopguards
+from sfv.translate import loopguards, stepguards
 
 COUNTS = [0, 1, 2, 9, 10, 11, 12, 15]
 STATUSES = ["COMPLETED", "SKIPPED", "FAILED", "CANCELLED", "RECOVERED"]
@@ -193,7 +193,7 @@ class C06(Property):
     lean_targets = ["SFV.Props.C06", "SFV.Model.Proto"]
     props_files = ["SFV/Props/C06.lean"]
     drivers = ["Drivers/C06.lean"]
-    translators = [loopguards.generate]
+    translators = [stepguards.generate, loopguards.generate]
     quick_budget_s = 300
     rule = ("REAL CWLLoopOutputAllStep / CWLLoopOutputLastStep wired with real Ports (in-memory context): 1..4 loop instances (scatter "
             "elements 0.0, 0.9, 0.10, … or the plain instance 0) with iteration counts 0..15 (always 0,1,9,10,11,12), body outputs p.i and "
@@ -249,6 +249,9 @@ class C06(Property):
         run_controlled(main, seed, timeout=max(30.0, ctx.time_left() + 900))
         got = ctx.lean("Drivers/C06.lean", self._lines)
         for g, (real, case) in zip(got, self._expect):
+            if case.get("stage") == "provenance":      # the order inside a provenance set is not observable in the database
+                g = _canon_prov(g)
+                real = _canon_prov(real)
             if g != real:
                 ctx.disagree(f"model vs {case['op']}", f"code {real!r}, Lean model {g!r}", case)
 
@@ -298,6 +301,12 @@ class C06(Property):
                 ps.remove("0")
             yield {"op": "number", "instances": [{"p": p, "n": rng.choice([1, 2, 3, 10, 11, 12, 16])} for p in ps], "ports": rng.choice([1, 1, 2]),
                    "oseed": rng.randrange(1 << 30)}
+        # ---- numbering after LoopCombinator.restore (recovery resumes instance p at iteration k) ----
+        for _ in range(80 if wide else 20):
+            k = rng.randint(1, 4)
+            ps = rng.sample(PREFIXES[1:], k)
+            yield {"op": "numrestore", "instances": [{"p": p, "resume": rng.choice([None, 0, 1, 9, 10, 11]), "n": rng.choice([1, 2, 3, 11])} for p in ps],
+                   "restore_at": rng.choice(["start", "start", "middle"]), "oseed": rng.randrange(1 << 30)}
         # ---- the whole loop network run by the real executor (scatter instances around the loop, different counts) ----
         for i in range(36 if wide else 10):
             k = rng.randint(1, 4)
@@ -398,8 +407,21 @@ class C06(Property):
             ctx.fail("loopout:hang", "the step took its termination token and is blocked on its input port for ever", case)
         out = list(p_out.token_list)
         exp = (self._render(out, ids, hung), case)
+        # provenance recorded in the database for every output: the body outputs collected for the instance
+        by_pid = {t.persistent_id: f"{t.tag}:{ids[id(t)]}" for t in toks if id(t) in ids}
+        provs = []
+        for t in (out if "perm" not in case else []):
+            if isinstance(t, TerminationToken):
+                continue
+            deps = [r["dependee"] for r in await context.database.get_dependees(t.persistent_id)]
+            extra = [d for d in deps if d not in by_pid]
+            provs.append(f"{t.tag if t.tag != '' else '~'}<-[" + ",".join(sorted(by_pid[d] for d in deps if d in by_pid)) + "]" + (f"+{len(extra)}" if extra else ""))
+        pexp = (";".join(provs) or "-", dict(case, stage="provenance"))
         self._lines.append(f"loopout {case['method']} " + " ".join(words))   # appended together (never misaligned by a crash)
         self._expect.append(exp)
+        if "perm" not in case:       # the exhaustive permutation corpus is about arrival order; provenance is compared on all other cases
+            self._lines.append(f"loopoutprov {case['method']} " + " ".join(words))
+            self._expect.append(pexp)
         if not case.get("partial"):
             self._monitor(ctx, case, out)
         nmax = max([len(i["vals"]) for i in case["instances"]], default=0)
@@ -498,6 +520,60 @@ class C06(Property):
         self._lines.append("number " + " ".join(joins))
         self._expect.append((" ".join(outs) or "-", case))
         ctx.case({"case": case, "joins": joins[:8], "outs": outs[:8]}, ("number", tuple(joins)), "number")
+
+    # --------------------------------------------------------------------------------------------
+    async def _numrestore(self, ctx: Ctx, context, case: dict) -> None:
+        """real LoopCombinator (one port): `restore({port: (p, p.k)})` for the instances that resume at iteration k, then causal
+        arrivals: a resumed instance sends the back-edge token p.k, p.(k+1), …; a fresh one sends p, p.0, …"""
+        self._n += 1
+        rng = random.Random(case["oseed"])
+        wf = sd.new_workflow(context, f"c06r-{self._n}")
+        comb = LoopCombinator(name="lc", workflow=wf)
+        comb.add_item("x")
+        pairs = {f"port{i}": (inst["p"], f"{inst['p']}.{inst['resume']}") for i, inst in enumerate(case["instances"]) if inst["resume"] is not None}
+        pending = {inst["p"]: ([inst["p"]] if inst["resume"] is None else [f"{inst['p']}.{inst['resume']}"]) + [None] * (inst["n"] - 1)
+                   for inst in case["instances"]}
+        fresh_first = [inst["p"] for inst in case["instances"] if inst["resume"] is None]
+        produced = {inst["p"]: [] for inst in case["instances"]}
+        words, outs = [], []
+        total = sum(len(v) for v in pending.values())
+        at = 0 if case["restore_at"] == "start" or not fresh_first else rng.randint(0, max(0, min(2, total - 1)))
+        step_no, restored = 0, False
+        while any(pending.values()) or not restored:
+            if not restored and step_no >= at:
+                if pairs:
+                    await comb.restore(dict(pairs))
+                    words.append("r:" + ",".join(f"{a}:{b}" for a, b in pairs.values()))
+                restored = True
+                continue
+            # before the restore only fresh instances may move (a resumed instance has nothing in flight yet)
+            movable = [q for q, v in pending.items() if v and (restored or q in fresh_first)]
+            if not movable:
+                at = step_no
+                continue
+            p = rng.choice(movable)
+            nxt = pending[p].pop(0)
+            tag = nxt if nxt is not None else produced[p][-1]
+            emitted = []
+            async for schema in comb.combine("x", Token(value=tag, tag=tag)):
+                emitted.append(schema["x"]["token"].tag)
+            if len(emitted) != 1:
+                ctx.fail("number:emissions", f"arrival of {tag} produced {len(emitted)} combinations", case)
+                return
+            words.append(tag)
+            outs.append(emitted[0])
+            produced[p].append(emitted[0])
+            step_no += 1
+        for inst in case["instances"]:
+            first = 0 if inst["resume"] is None else inst["resume"] + 1
+            exp = [f"{inst['p']}.{k}" for k in range(first, first + inst["n"])]
+            if produced[inst["p"]] != exp:
+                ctx.fail("number:after-restore:wrong-tags", f"instance {inst['p']} (resume {inst['resume']}): iterations tagged {produced[inst['p']]}, "
+                                                            f"expected {exp}", case)
+        exp_line = (" ".join(outs) or "-", case)
+        self._lines.append("number " + " ".join(words))
+        self._expect.append(exp_line)
+        ctx.case({"case": case, "events": words[:10], "outs": outs[:10]}, ("numrestore", tuple(words)), "numrestore")
 
     # --------------------------------------------------------------------------------------------
     async def _network(self, ctx: Ctx, context, case: dict) -> None:
@@ -777,8 +853,14 @@ class C06(Property):
             if tr == "x" and open_inst and case["status"] == "COMPLETED" and not case["drop_iterterm"]:
                 ctx.fail("checklist:terminated-while-iterating", f"step stopped reading after {e} while instances {sorted(open_inst)} are iterating", case)
                 break
+        # the step as a whole: what it put on its output port (the combinator's numbering) and how it terminated
+        log = list(p_out.token_list)
+        outs = [t.tag for t in log if not isinstance(t, TerminationToken)]
+        terms = [t for t in log if isinstance(t, TerminationToken)]
+        term = "-" if not terms else terms[0].value.name if (len(terms) == 1 and log[-1] is terms[0]) else "MISPLACED"
+        exp = (("".join(trace) or "-") + "|out=" + (",".join(outs) or "-") + "|term=" + term, case)
         self._lines.append("checklist " + " ".join(words))
-        self._expect.append(("".join(trace) or "-", case))
+        self._expect.append(exp)
         ctx.case({"case": case, "events": words[:10], "trace": "".join(trace)}, ("checklist", tuple(words)), "checklist")
 
     # --------------------------------------------------------------------------------------------
@@ -800,8 +882,21 @@ class C06(Property):
         got = ctx.lean("Drivers/C06.lean", self._lines)
         for ln, g, (real, c) in zip(self._lines, got, self._expect):
             print(f"{ln[:500]}\n   real : {real[:600]}\n   model: {g[:600]}")
+            if c.get("stage") == "provenance":
+                g, real = _canon_prov(g), _canon_prov(real)
             if g != real:
                 ctx.disagree("model vs code", f"code {real!r}, model {g!r}", c)
+
+
+def _canon_prov(line: str) -> str:
+    if line == "-":
+        return line
+    parts = []
+    for part in line.split(";"):
+        head, body = part.split("<-[", 1)
+        body, tail = body.split("]", 1)
+        parts.append(head + "<-[" + ",".join(sorted(x for x in body.split(",") if x)) + "]" + tail)
+    return ";".join(parts)
 
 
 def _strip(u):
